@@ -61,7 +61,7 @@ GEN_QUICK = [
     ("config", {"P_RecTtls": "{2, 5, 100}", "P_Steps": "{1, 3, 7}", "P_Starts": "{8, 11, 14}", "P_Cfgs": ALL_CFGS,
                 "P_Args": GENUINE_ARGS, "P_RRV": "AllRRV", "P_SIGV": "AllSIGV", "P_KEYV": "AllKEYV"}, 3, 5, 0, "TRUE"),
     ("cachekey", {"P_RecTtls": "{5, 100}", "P_Steps": "{1, 7}", "P_Starts": "{8, 11}", "P_Cfgs": '{"none", "minAbove"}',
-                  "P_Args": KEY_ARGS, "P_RRV": "AllRRV", "P_SIGV": "AllSIGV", "P_KEYV": "AllKEYV"}, 3, 5, 3, "TRUE"),
+                  "P_Args": KEY_ARGS, "P_RRV": "AllRRV", "P_SIGV": "AllSIGV", "P_KEYV": "AllKEYV"}, 2, 3, 2, "TRUE"),
     ("config2", {"P_RecTtls": "{5, 100}", "P_Steps": "{3, 7}", "P_Starts": "{8, 11}", "P_Cfgs": ALL_CFGS,
                  "P_Args": SMALL_ARGS, "P_RRV": "AllRRV", "P_SIGV": "AllSIGV", "P_KEYV": "AllKEYV"}, 2, 3, 1, "TRUE"),
 ]
